@@ -13,6 +13,7 @@ import (
 	"strings"
 	"time"
 
+	kinesistypes "github.com/aws/aws-sdk-go-v2/service/kinesis/types"
 	"github.com/segmentio/ksuid"
 	gproto "google.golang.org/protobuf/proto"
 	"reduction.dev/reduction-protocol/jobconfigpb"
@@ -174,6 +175,15 @@ func genCluster(r *mrand.Rand, prop, tier string) simcore.Case {
 		}
 		cs.Cfg["workers2"] = pick(1, 2, 3)
 	}
+	if cs.Cfg["kin"] == 1 && r.IntN(3) == 0 {
+		for i, n := 0, 1+r.IntN(3); i < n; i++ {
+			if r.IntN(2) == 0 {
+				cs.Ops = append(cs.Ops, simcore.Op{K: "kin-expire", A: []int64{int64(r.IntN(int(horizon * 1000)))}})
+			} else {
+				cs.Ops = append(cs.Ops, simcore.Op{K: "kin-error", A: []int64{int64(r.IntN(int(horizon * 1000))), 200 + int64(r.IntN(20000))}})
+			}
+		}
+	}
 	sort.SliceStable(cs.Ops, func(i, j int) bool { return cs.Ops[i].A[0] < cs.Ops[j].A[0] })
 	return cs
 }
@@ -257,7 +267,13 @@ func bodyCluster(c *sim.Ctx) {
 		S = len(src.splits)
 	}
 	w.h = newCluModel(c, src)
-	w.h.faults = len(c.Case.Ops) > 0 && (prop != "C14" || hasOp(c.Case.Ops, "kill-all"))
+	nProcFaults := 0
+	for _, op := range c.Case.Ops {
+		if processFault(op) {
+			nProcFaults++
+		}
+	}
+	w.h.faults = nProcFaults > 0 && (prop != "C14" || hasOp(c.Case.Ops, "kill-all"))
 
 	disk.OnPublish = func(node, p string, data []byte) {
 		if !strings.HasSuffix(p, ".snapshot") {
@@ -602,8 +618,25 @@ func (w *cluWorld) applyFault(op simcore.Op) {
 		w.net.mu.Unlock()
 	case "savepoint":
 		w.requestSavepoint()
+	case "kin-expire": // every shard iterator handed out so far expires (a reader that paused for five minutes)
+		if k := w.src.kin; k != nil {
+			k.fake.ExpireShardIterators()
+			c.Fault("kinesis-iterators-expired")
+		}
+	case "kin-error": // GetRecords is throttled for a while
+		if k := w.src.kin; k != nil {
+			msg := "rate exceeded"
+			k.fake.SetGetRecordsError(&kinesistypes.ProvisionedThroughputExceededException{Message: &msg})
+			c.Fault("kinesis-getrecords-throttled")
+			simrt.Sleep("throttle", time.Duration(op.Arg(1))*time.Millisecond)
+			k.fake.SetGetRecordsError(nil)
+		}
 	}
 }
+
+// processFault: the op kills, stops, restarts or cuts off a process (service faults of the
+// source do not: the run still has to be exactly a failure-free one)
+func processFault(op simcore.Op) bool { return !strings.HasPrefix(op.K, "kin-") }
 
 // requestSavepoint is what `reduction savepoint` does through the job server.
 func (w *cluWorld) requestSavepoint() {
